@@ -995,18 +995,46 @@ def pattern_reg8(context, tree):
     return tree.value
 
 
-@arm_isa.pattern("reg", "I8TOI32(reg)", size=0)
-@arm_isa.pattern("reg", "U8TOI32(reg)", size=0)
-@arm_isa.pattern("reg", "I8TOU32(reg)", size=0)
-@arm_isa.pattern("reg", "U8TOU32(reg)", size=0)
-@arm_isa.pattern("reg", "I8TOI16(reg)", size=0)
-@arm_isa.pattern("reg", "U8TOI16(reg)", size=0)
-@arm_isa.pattern("reg", "I8TOU16(reg)", size=0)
-@arm_isa.pattern("reg", "U8TOU16(reg)", size=0)
-def pattern_i8toi32(self, tree, c0):
-    # TODO: do something?
-    # Sign extend for example?
-    return c0
+def sign_extend(context, src, bits):
+    """Sign extend the low `bits` bits of src into a new register.
+
+    The upper bits of a register that holds an 8 or 16 bit value are
+    not defined (narrow arithmetic is done with 32 bit instructions),
+    so every operation that looks at them extends its operand first.
+    """
+    tmp = context.new_reg(ArmRegister)
+    context.emit(Mov2(tmp, src, ShiftLsl(32 - bits)))
+    d = context.new_reg(ArmRegister)
+    context.emit(Mov2(d, tmp, ShiftAsr(32 - bits)))
+    return d
+
+
+def zero_extend(context, src, bits):
+    """Zero extend the low `bits` bits of src into a new register."""
+    d = context.new_reg(ArmRegister)
+    if bits == 8:
+        context.emit(AndImm(d, src, 0xFF))
+    else:
+        tmp = context.new_reg(ArmRegister)
+        context.emit(Mov2(tmp, src, ShiftLsl(32 - bits)))
+        context.emit(Mov2(d, tmp, ShiftLsr(32 - bits)))
+    return d
+
+
+@arm_isa.pattern("reg", "I8TOI32(reg)", size=8)
+@arm_isa.pattern("reg", "I8TOU32(reg)", size=8)
+@arm_isa.pattern("reg", "I8TOI16(reg)", size=8)
+@arm_isa.pattern("reg", "I8TOU16(reg)", size=8)
+def pattern_i8toi32(context, tree, c0):
+    return sign_extend(context, c0, 8)
+
+
+@arm_isa.pattern("reg", "U8TOI32(reg)", size=4)
+@arm_isa.pattern("reg", "U8TOU32(reg)", size=4)
+@arm_isa.pattern("reg", "U8TOI16(reg)", size=4)
+@arm_isa.pattern("reg", "U8TOU16(reg)", size=4)
+def pattern_u8toi32(context, tree, c0):
+    return zero_extend(context, c0, 8)
 
 
 @arm_isa.pattern("reg", "U32TOI8(reg)", size=0)
@@ -1033,19 +1061,16 @@ def pattern_i32toi16(context, tree, c0):
     return c0
 
 
-@arm_isa.pattern("reg", "I16TOI32(reg)", size=4)
+@arm_isa.pattern("reg", "I16TOI32(reg)", size=8)
+@arm_isa.pattern("reg", "I16TOU32(reg)", size=8)
 def pattern_i16toi32(context, tree, c0):
-    # d2 = context.new_reg(ArmRegister)
-    # TODO:
-    # context.emit(Sxth(d2, c0))
-    return c0
+    return sign_extend(context, c0, 16)
 
 
-@arm_isa.pattern("reg", "I16TOU32(reg)", size=4)
-@arm_isa.pattern("reg", "U16TOI32(reg)", size=4)
-@arm_isa.pattern("reg", "U16TOU32(reg)", size=4)
-def pattern_i16tou32(context, tree, c0):
-    return c0
+@arm_isa.pattern("reg", "U16TOI32(reg)", size=8)
+@arm_isa.pattern("reg", "U16TOU32(reg)", size=8)
+def pattern_u16toi32(context, tree, c0):
+    return zero_extend(context, c0, 16)
 
 
 @arm_isa.pattern("reg", "CONSTI32", size=8)
@@ -1097,9 +1122,35 @@ def pattern_const8_1(context, tree):
     return d
 
 
+@arm_isa.pattern("stm", "CJMPI16(reg, reg)", size=10)
+def pattern_cjmp_i16(context, tree, c0, c1):
+    c0 = sign_extend(context, c0, 16)
+    c1 = sign_extend(context, c1, 16)
+    pattern_cjmp_signed(context, tree, c0, c1)
+
+
+@arm_isa.pattern("stm", "CJMPI8(reg, reg)", size=10)
+def pattern_cjmp_i8(context, tree, c0, c1):
+    c0 = sign_extend(context, c0, 8)
+    c1 = sign_extend(context, c1, 8)
+    pattern_cjmp_signed(context, tree, c0, c1)
+
+
+@arm_isa.pattern("stm", "CJMPU16(reg, reg)", size=10)
+def pattern_cjmp_u16(context, tree, c0, c1):
+    c0 = zero_extend(context, c0, 16)
+    c1 = zero_extend(context, c1, 16)
+    pattern_cjmp_unsigned(context, tree, c0, c1)
+
+
+@arm_isa.pattern("stm", "CJMPU8(reg, reg)", size=6)
+def pattern_cjmp_u8(context, tree, c0, c1):
+    c0 = zero_extend(context, c0, 8)
+    c1 = zero_extend(context, c1, 8)
+    pattern_cjmp_unsigned(context, tree, c0, c1)
+
+
 @arm_isa.pattern("stm", "CJMPI32(reg, reg)", size=2)
-@arm_isa.pattern("stm", "CJMPI16(reg, reg)", size=2)
-@arm_isa.pattern("stm", "CJMPI8(reg, reg)", size=2)
 def pattern_cjmp_signed(context, tree, c0, c1):
     op, yes_label, no_label = tree.value
     opnames = {"<": Blt, ">": Bgt, "==": Beq, "!=": Bne, "<=": Ble, ">=": Bge}
@@ -1111,8 +1162,6 @@ def pattern_cjmp_signed(context, tree, c0, c1):
 
 
 @arm_isa.pattern("stm", "CJMPU32(reg, reg)", size=2)
-@arm_isa.pattern("stm", "CJMPU16(reg, reg)", size=2)
-@arm_isa.pattern("stm", "CJMPU8(reg, reg)", size=2)
 def pattern_cjmp_unsigned(context, tree, c0, c1):
     op, yes_label, no_label = tree.value
     opnames = {
@@ -1320,7 +1369,7 @@ def pattern_shr_u32(context, tree, c0, c1):
 @arm_isa.pattern("reg", "SHRI16(reg, reg)", size=4)
 def pattern_shr_i16(context, tree, c0, c1):
     d = context.new_reg(ArmRegister)
-    # TODO: mask with 0xffff at some point?
+    c0 = sign_extend(context, c0, 16)
     context.emit(Asr(d, c0, c1))
     return d
 
@@ -1328,7 +1377,7 @@ def pattern_shr_i16(context, tree, c0, c1):
 @arm_isa.pattern("reg", "SHRU16(reg, reg)", size=4)
 def pattern_shr_u16(context, tree, c0, c1):
     d = context.new_reg(ArmRegister)
-    # TODO: mask with 0xffff at some point?
+    c0 = zero_extend(context, c0, 16)
     context.emit(Lsr1(d, c0, c1))
     return d
 
@@ -1336,7 +1385,7 @@ def pattern_shr_u16(context, tree, c0, c1):
 @arm_isa.pattern("reg", "SHRI8(reg, reg)", size=4)
 def pattern_shr8(context, tree, c0, c1):
     d = context.new_reg(ArmRegister)
-    # TODO: mask with 0xffff at some point?
+    c0 = sign_extend(context, c0, 8)
     context.emit(Asr(d, c0, c1))
     return d
 
@@ -1344,7 +1393,7 @@ def pattern_shr8(context, tree, c0, c1):
 @arm_isa.pattern("reg", "SHRU8(reg, reg)", size=4)
 def pattern_shr_u8(context, tree, c0, c1):
     d = context.new_reg(ArmRegister)
-    # TODO: mask with 0xffff at some point?
+    c0 = zero_extend(context, c0, 8)
     context.emit(Lsr1(d, c0, c1))
     return d
 
